@@ -325,3 +325,77 @@ func sortInts(a []int) {
 		}
 	}
 }
+
+// R18.19: the end-of-input exits taken on a comparison of the bit counter are taken when the counter is the smaller.
+func ruleR18_19(p *Program, r *Report) {
+	r.Expect("R18.19", 1)
+	if asmLoadFailures(p, r, "R18.19") {
+		return
+	}
+	for _, u := range p.Asm().Units {
+		if u.Text.Name != "decodeHuffmanAsmArchV3" {
+			continue
+		}
+		ins := u.Text.Instrs
+		B := ""
+		for i, in := range ins {
+			if strings.HasPrefix(in.Mnem, "MOV") && len(in.Ops) == 2 && in.Ops[1].Kind == OpReg && in.Ops[0].Kind == OpMem && in.Ops[0].Base != "" {
+				bv := u.Flow.Before[i][in.Ops[0].Base]
+				if T, _, ok := u.typedBase(bv); ok {
+					if res, err := resolveOffset(p.Sizes, T, in.Ops[0].Off+bv.Disp); err == nil && res.FieldSet == "bitsLen" {
+						B = baseReg(in.Ops[1].Reg)
+					}
+				}
+			}
+		}
+		// the exit that reports "end of input": the label block that stores the errno constant errorNoEndInput
+		eoi, okE := constOf(p, flateRel, "errorNoEndInput")
+		target := -1
+		for i, in := range ins {
+			if len(in.Labels) == 0 {
+				continue
+			}
+			for j := i; j < len(ins) && j < i+8; j++ {
+				if ins[j].Mnem == "MOVQ" && ins[j].Ops[0].Kind == OpImm && ins[j].Ops[0].Imm == eoi && ins[j].Ops[1].Kind == OpReg && baseReg(ins[j].Ops[1].Reg) == "AX" {
+					target = i
+				}
+				if asmJumps[ins[j].Mnem] {
+					break
+				}
+			}
+		}
+		if B == "" || !okE || target < 0 {
+			r.Undecided("R18.19", u.Text.Name+"|anchors", "-", "the bit counter register and the end-of-input exit are found", "not found")
+			continue
+		}
+		n := 0
+		lab := newLabeler()
+		for i, in := range ins {
+			if !u.Flow.Reach[i] || !asmJumps[in.Mnem] || in.Mnem == "JMP" || i == 0 {
+				continue
+			}
+			if t, ok := u.Text.labelIdx[in.Ops[0].Name]; !ok || t != target {
+				continue
+			}
+			cmp := ins[i-1]
+			if cmp.Mnem != "CMPQ" || len(cmp.Ops) != 2 || cmp.Ops[0].Kind != OpReg || cmp.Ops[1].Kind != OpReg {
+				continue
+			}
+			a, b := baseReg(cmp.Ops[0].Reg), baseReg(cmp.Ops[1].Reg)
+			if a != B && b != B {
+				continue // a comparison of cursors (input/output limits), not of the bit counter
+			}
+			n++
+			// CMPQ a, b ; Jcc : JL/JLT jumps when a < b, JG when a > b
+			okDir := (a == B && (in.Mnem == "JL" || in.Mnem == "JLT" || in.Mnem == "JB")) || (b == B && (in.Mnem == "JG" || in.Mnem == "JGT" || in.Mnem == "JA"))
+			why := ""
+			if !okDir {
+				why = fmt.Sprintf("'%s ; %s' takes the end-of-input exit when the bit counter %s is the larger operand: a code that is merely invalid is reported as 'more input needed' and the Go loop resumes in the middle of the symbol", strings.TrimSpace(cmp.Raw), strings.TrimSpace(in.Raw), B)
+			}
+			r.Check(okDir, "R18.19", u.Text.Name+"|"+lab.get("end of input on bit counter"), p.asmPos(u, in), "the end-of-input exit is taken when fewer bits are buffered than the code needs", why)
+		}
+		if n == 0 {
+			r.Undecided("R18.19", u.Text.Name+"|sites", "-", "some end-of-input exit is decided on the bit counter", "none found")
+		}
+	}
+}
